@@ -97,7 +97,41 @@ Theorem C13_lie_bracket_antisymmetric :
   (forall v : vf3 P, veq3 P (lie3 P dx v v) (fun _ => 0, fun _ => 0, fun _ => 0)).
 Proof.
   intros P dx Hl. split; [|split; [|split]];
-    [apply (lie2_antisym K Kf P dx Hl) | apply (lie3_antisym K Kf P dx Hl) | apply (lie2_self K Kf P dx Hl) | apply (lie3_self K Kf P dx Hl)].
+    [apply (lie2_antisym K Kf P dx Hl) | apply (lie3_antisym K Kf P dx Hl) | apply (lie2_self K Kf P dx) | apply (lie3_self K Kf P dx)].
+Qed.
+
+(* 4b. lie_bracket AS CODED: both Jacobians are computed with ALL of the caller's derivative options (mode, sigma, spacing,
+       stride -- generated from the source by recording the flow_derivatives calls), i.e. by one and the same operator; hence, for
+       any family dxo of linear operators indexed by the forwarded options (finite differences, Gaussian smoothing, ...), the
+       coded bracket is bilinear, antisymmetric and [v, v] = 0 *)
+Theorem C13_lie_bracket_forwards_all_options :
+  gen_lie_opts_first_arg = (true, true, true, true) /\ gen_lie_opts_second_arg = (true, true, true, true).
+Proof. exact gen_lie_opts_all. Qed.
+Theorem C13_lie_bracket_code_2d :
+  forall (P : Type) (dxo : lopts -> nat -> (P -> K) -> P -> K), (forall o, linear_opg P (dxo o)) ->
+  forall (c : K) (v v' u u' : vf2 P),
+  veq2 P (lie2_code P dxo v u) (vscale2 P (- (1)) (lie2_code P dxo u v)) /\
+  veq2 P (lie2_code P dxo v v) (fun _ => 0, fun _ => 0) /\
+  veq2 P (lie2_code P dxo (vadd2 P v v') u) (vadd2 P (lie2_code P dxo v u) (lie2_code P dxo v' u)) /\
+  veq2 P (lie2_code P dxo v (vadd2 P u u')) (vadd2 P (lie2_code P dxo v u) (lie2_code P dxo v u')) /\
+  veq2 P (lie2_code P dxo (vscale2 P c v) u) (vscale2 P c (lie2_code P dxo v u)) /\
+  veq2 P (lie2_code P dxo v (vscale2 P c u)) (vscale2 P c (lie2_code P dxo v u)).
+Proof.
+  intros P dxo Hl c v v' u u'. split; [apply (lie2_code_antisym K Kf P dxo Hl)|].
+  split; [apply (lie2_code_self K Kf P dxo)|]. apply (lie2_code_bilinear K Kf P dxo Hl).
+Qed.
+Theorem C13_lie_bracket_code_3d :
+  forall (P : Type) (dxo : lopts -> nat -> (P -> K) -> P -> K), (forall o, linear_opg P (dxo o)) ->
+  forall (c : K) (v v' u u' : vf3 P),
+  veq3 P (lie3_code P dxo v u) (vscale3 P (- (1)) (lie3_code P dxo u v)) /\
+  veq3 P (lie3_code P dxo v v) (fun _ => 0, fun _ => 0, fun _ => 0) /\
+  veq3 P (lie3_code P dxo (vadd3 P v v') u) (vadd3 P (lie3_code P dxo v u) (lie3_code P dxo v' u)) /\
+  veq3 P (lie3_code P dxo v (vadd3 P u u')) (vadd3 P (lie3_code P dxo v u) (lie3_code P dxo v u')) /\
+  veq3 P (lie3_code P dxo (vscale3 P c v) u) (vscale3 P c (lie3_code P dxo v u)) /\
+  veq3 P (lie3_code P dxo v (vscale3 P c u)) (vscale3 P c (lie3_code P dxo v u)).
+Proof.
+  intros P dxo Hl c v v' u u'. split; [apply (lie3_code_antisym K Kf P dxo Hl)|].
+  split; [apply (lie3_code_self K Kf P dxo)|]. apply (lie3_code_bilinear K Kf P dxo Hl).
 Qed.
 
 (* 5. BCH: the generated coefficients and nesting are the documented table, and for commuting fields every truncation
@@ -130,6 +164,9 @@ Print Assumptions C13_compose_honours_align_corners.
 Print Assumptions C13_lie_bracket_bilinear_2d.
 Print Assumptions C13_lie_bracket_bilinear_3d.
 Print Assumptions C13_lie_bracket_antisymmetric.
+Print Assumptions C13_lie_bracket_forwards_all_options.
+Print Assumptions C13_lie_bracket_code_2d.
+Print Assumptions C13_lie_bracket_code_3d.
 Print Assumptions C13_bch_table.
 Print Assumptions C13_bch_commuting.
 Print Assumptions C13_logv_forwards_align_corners.
